@@ -32,7 +32,7 @@ META = {
                   "run calls) are logged through a wrapper of Algorithm.evaluate_all and a counting problem function, and Coq (vm_compute) checks each "
                   "logged trace is a run of the model (accepts; its meaning is theorem c08_accepts_sound); an independent per-step oracle with a "
                   "non-progress watchdog asserts the statement's clauses on the same runs.",
-    "level_note": "Trusted: Coq kernel + VM; the harness (evaluate_all wrapper, identity bookkeeping, literal printer). The step of each algorithm is modelled "
+    "level_note": "Tie/T08.v also states stops-at-the-first-boundary and run(0) about the Algorithm.run GENERATED from the source text (tie_c08_generated_*). Trusted: Coq kernel + VM; the harness (evaluate_all wrapper, identity bookkeeping, literal printer). The step of each algorithm is modelled "
                   "only through the sizes of the batches it submits (skeleton: GA/ES/NSGAII/NSGAIII/EpsMOEA/EpsNSGAII/GDE3/SPEA2/MOEAD/IBEA/PAES/PESA2/"
                   "OMOPSO/SMPSO/CMAES as functions of population/offspring/swarm size and children per mating); that the real step submits those batches, "
                   "that extensions only evaluate through evaluate_all and that nothing else moves nfe is tied by the sampled traces, not proved from the "
